@@ -37,13 +37,16 @@ def oracles():
     return _ORACLES
 
 
-def find_failing_input(function_key, obligation, model, budget_s=60):
+def find_failing_input(function_key, obligation, model, budget_s=90, pid=None):
     fq = function_key.split("#")[0]
     o = oracles().get(fq)
     if o is None:
         return None
     try:
-        case = o.search(model or {}, budget_s, obligation)
+        try:
+            case = o.search(model or {}, budget_s, obligation, pid=pid)
+        except TypeError:
+            case = o.search(model or {}, budget_s, obligation)
     except Exception:
         return {"confirmed": False, "error": traceback.format_exc()[-1500:]}
     if case is None:
